@@ -513,6 +513,7 @@ def run_xml(ctx):
         ctx.count("xml:with_protected_element", 1 if n_prot else 0)
         ctx.count("xml:with_nbsp", 1 if NBSP in d else 0)
         ctx.count("xml:with_nbsp_charref", 1 if has_ref else 0)
+        ctx.count("xml:with_cdata", 1 if "<![CDATA[" in d else 0)
 
         def fail(key, what, extra=None):
             ctx.fail(key, what, dict(replay, **(extra or {})))
